@@ -20,13 +20,13 @@ CHECKS = {
    text="All arrival orders of up to N halves of three PIDs with a cleanup pair at every gap and every cut-off between earlier arrivals; whether a pending half survived is observed by delivering the other half. Concurrent programs (second half arrives || cleanup) are explored under the steer scheduler and free-running. The ticker/cut-off wiring of Auditd.Read is exercised in the quick tier at another time scale (monitor rebuilt with go build -overlay, only the interval constant replaced by 2 s) and in the thorough tier in real time across the one-minute ticker.",
    note="Wall clock must not step backwards within a history; the 60-120 s band is unspecified.", ref="4 C16"),
  "C05": dict(engine="mon-sshd", cat="fault_enumeration", tech="sequence monitor over recorder + harness-owned logins channel under the race detector; fault injection at the event write; cancellation in a state-confirmed blocked hand-off",
-   text="Every accepted branch x PID tokens: exactly one succeeded event, written before the hand-off (channel empty at every write; logical-clock stamps on an unbuffered channel), one login with the line's PID, the certificate key id (or unknown) and the very pointer that was written. Failure/unrecognised lines never forward. Write failure on every form: error returned wrapping the cause, nothing forwarded. Cancellation before the call and while parked in the hand-off (state confirmed from the goroutine dump): returns, nothing forwarded. Slow correlator: nobody receives for a dwell (1.5 s quick, 12 s thorough) while the context is live - the call must still be blocked and must then deliver.",
+   text="Every accepted branch x PID tokens: exactly one succeeded event, written before the hand-off (channel empty at every write; logical-clock stamps on an unbuffered channel), one login with the line's PID, the certificate key id (or unknown) and the very pointer that was written. Failure/unrecognised lines never forward. Write failure on every form: error returned wrapping the cause, nothing forwarded. Cancellation before the call and while parked in the hand-off (state confirmed from the goroutine dump): returns, nothing forwarded. Slow correlator: nobody receives for a dwell (1.5 s quick, 12 s thorough) while the context is live - the call must still be blocked and must then deliver. Slow-correlator phase: 64 accepted lines, half through SyslogIngester.Process, nobody receives for 3 s / 12 s; the hand-off must still be pending and deliver once the correlator is ready.",
    note="-race build in child processes; the blocked state is confirmed, not assumed.", ref="4 C05"),
  "C06": dict(engine="mon-sshd", cat="exploration", tech="reference-constructor oracle over generated sshd messages (expected event built from the generated fields), child-process batches",
    text="21 message forms x each-choice coverage of all boundary pools, then seeded random field values; exactly one event per line, compared field by field with the event constructed from the fields (never from a regular expression). One accepted line in eight runs with a cancelled context and an unready correlator: the event must be produced all the same.",
    note="Field domains are those of the quantifier; inherently ambiguous renderings are not generated.", ref="4 C06"),
  "C07": dict(engine="mon-sshd+mon-pipe", cat="exploration", tech="differential runtime monitor: same record through the processor directly and through SyslogIngester.Process / a real FIFO; audit parse with and without newline; FIFO->AuditLogIngester->Read vs direct feed",
-   text="Both sides of each comparison are the real code; events and forwarded logins must be equal (modulo uuid and clock). Real FIFOs with five write chunkings, including records longer than the 4096-byte read buffer on both pipes; -race build for the FIFO parts.",
+   text="Both sides of each comparison are the real code; events and forwarded logins must be equal (modulo uuid and clock). Real FIFOs with five write chunkings, including records longer than the 4096-byte read buffer on both pipes; -race build for the FIFO parts. Accepted logins framed and direct while the login consumer is busy for 3 s (quick) / 12 s (thorough): the framed record must wait for the consumer exactly as the direct one does.",
    note="rsyslog frames records as '<pid> <msg>\\n'.", ref="4 C07"),
  "C11": dict(engine="mon-sshd", cat="exploration", tech="total-function monitor in child processes with write-ahead input log; plain and -race (checkptr) builds",
    text="Hostile lines (every byte-offset truncation of every form, random bytes incl. 64 KiB, mutations, broken certificate tails, hostile PID tokens) through the processor and the syslog ingester: no panic/crash, nil error, at most one event, login only with one succeeded event, event only after a recognised keyword, every extracted field a substring of the line or a fixed placeholder.",
@@ -44,7 +44,7 @@ CHECKS = {
    text="Worker x blocking state x downstream capacity enumerated; each state is confirmed from the goroutine dump before cancel(); the worker must return (stuck = parked after the watchdog, otherwise inconclusive) and nothing may be delivered after the observed return.",
    note="A blocked output writer is not among the listed states and is not injected.", ref="4 C13"),
  "C14": dict(engine="mon-audit", cat="exploration", tech="differential runtime monitor: emitted UserAction vs go-libaudit coalescing of fresh copies of the same lines; snapshot/aliasing check of the stored login",
-   text="Sessions with a bound login and up to 500 record groups through Auditd.Read; every emitted UserAction is compared (type, component, timestamp, session, outcome per result token, action/how/object, process_args presence and content) with the event coalesced from fresh copies; the stored login is snapshotted before and after and the emitted subjects map is mutated to expose aliasing. In half of the batches the login arrives after 0-40 held groups, so the hold-queue flush is rendered and compared too.",
+   text="Sessions with a bound login and up to 500 record groups through Auditd.Read; every emitted UserAction is compared (type, component, timestamp, session, outcome per result token, action/how/object, process_args presence and content) with the event coalesced from fresh copies; the stored login is snapshotted before and after and the emitted subjects map is mutated to expose aliasing. In half of the batches the login arrives after 0-40 held groups, so the hold-queue flush is rendered and compared too. Kernel timestamps do not grow with delivery order (adjacent groups swapped, every fifth session backwards).",
    note="go-libaudit's aucoalesce is the oracle for the summary; the outcome expectation comes from the generator's token.", ref="4 C14"),
  "C15": dict(engine="mon-audit", cat="fault_enumeration", tech="fault enumeration on Auditd.Read under the race detector: malformed line / failing k-th write / invalid login / unparsable pid at every position, hang classification for swallowed faults; exactly-once whole-group check on interleaved streams",
    text="Each fault kind is injected at every position in turn; Read must return an error that identifies the line or wraps the injected cause (errors.Is/As); a fault that leaves Read parked is a violation. Clean and line-wise interleaved streams must yield exactly one UserAction per kernel event that reflects all its records.",
